@@ -180,8 +180,9 @@ func (conf *Config) Set(app string, key string, value any, fileRef *ref.File) er
 
 	switch {
 	case conf.properties[app][key].Dynamic.SetDynamic != nil:
+		setDynamic := conf.properties[app][key].Dynamic.SetDynamic
 		conf.mutex.Unlock()
-		exitNum, err := conf.properties[app][key].Dynamic.SetDynamic(value)
+		exitNum, err := setDynamic(value)
 		if err != nil {
 			return err
 		}
@@ -195,8 +196,9 @@ func (conf *Config) Set(app string, key string, value any, fileRef *ref.File) er
 		return nil
 
 	case conf.properties[app][key].GoFunc.Write != nil:
+		write := conf.properties[app][key].GoFunc.Write
 		conf.mutex.Unlock()
-		err := conf.properties[app][key].GoFunc.Write(value)
+		err := write(value)
 		if err != nil {
 			return err
 		}
